@@ -198,7 +198,8 @@ def build(spec):  # noqa: C901, PLR0912, PLR0915
                 kw["default"] = d[1]
             elif d[0] == "factory":
                 kw["default"] = d[1]
-            body[fname] = mapped_column(col[tkey], **kw)
+            # db_names: the column is called differently from the mapped attribute (the logical model is about attributes)
+            body[fname] = mapped_column("db_" + fname, col[tkey], **kw) if spec.get("db_names") else mapped_column(col[tkey], **kw)
         return type(name, (Base,), body)
     if kind == "plaininit":
         params, assigns = [], []
